@@ -21,6 +21,7 @@ var c27CompatAgg = map[string]string{"avg_over_time": "avg", "min_over_time": "m
 type c27Gen struct {
 	rnd  *rand.Rand
 	step int64
+	big  bool // data set of large values with a small spread
 }
 
 func (g *c27Gen) pick(ss []string) string { return ss[g.rnd.IntN(len(ss))] }
@@ -103,6 +104,7 @@ func (g *c27Gen) overTime(fn string, w int64, inner c27Node, subquery bool) *c27
 type c27Case struct {
 	kind  string // def/A1… or red/R0…
 	wrapped bool // reductions: the reducible expression sits under another operator
+	big     bool // large values with a small spread (time()): tight tolerance
 	node  c27Node
 	rule  int    // reductions: expected rule
 	op    string // reductions: key part
@@ -112,7 +114,82 @@ type c27Case struct {
 }
 
 // definition cases: shapes on which no reduction rule can fire
+var c27DiffAggs = []string{"stddev", "stdvar", "stddev", "stdvar", "avg", "quantile", "sum", "min", "max"}
+var c27DiffFns = []string{"stddev_over_time", "stdvar_over_time", "stddev_over_time", "stdvar_over_time", "avg_over_time", "quantile_over_time", "sum_over_time", "min_over_time", "max_over_time", "last_over_time"}
+
+// timeCase: operators over time() — values ~1.79e9 that differ by one grid step
+func (g *c27Gen) timeCase() c27Case {
+	var base c27Node = &c27TimeNode{}
+	if g.rnd.IntN(3) == 0 {
+		base = &c27Wrap{kind: g.pick([]string{"subbig", "sub0", "neg", "abs"}), inner: base}
+	}
+	fn := g.pick(c27DiffFns)
+	o := g.overTime(fn, int64(2+g.rnd.IntN(6)), base, true)
+	if g.rnd.IntN(4) == 0 {
+		a := g.agg(g.pick(c27DiffAggs), o)
+		return c27Case{kind: "def/time-overtime-under-aggregation", node: a, outer: a, ot: o, big: true}
+	}
+	return c27Case{kind: "def/time-overtime", node: o, ot: o, big: true}
+}
+
+// bigCase: the operators whose definition involves differences of values, on a data set whose
+// values are 1e9..4e12 (either sign) with a spread of a few units
+func (g *c27Gen) bigCase() c27Case {
+	pickSel := func(allowBy bool) *c27Sel {
+		s := g.sel(allowBy)
+		if s.metric == "c" {
+			s.metric, s.what = "m", ""
+		}
+		if g.rnd.IntN(3) != 0 {
+			s.what = g.pick([]string{"avg", "min", "max", "sum", "sumsec"}) // large-valued digests
+		}
+		return s
+	}
+	switch g.rnd.IntN(8) {
+	case 0:
+		s := pickSel(false)
+		a := g.agg(g.pick(c27DiffAggs), g.wrap(s))
+		return c27Case{kind: "def/big/agg-over-expression", node: a, outer: a, sel: s, big: true}
+	case 1:
+		s := pickSel(false)
+		a := g.agg(g.pick([]string{"stddev", "stdvar", "quantile"}), s)
+		return c27Case{kind: "def/big/agg-not-reducible", node: a, outer: a, sel: s, big: true}
+	case 2:
+		s := pickSel(true)
+		s.byGiven = true
+		if s.by == nil {
+			s.by = []string{"k", "j"}
+		}
+		a := g.agg(g.pick(c27DiffAggs), s)
+		return c27Case{kind: "def/big/agg-over-grouped-selector", node: a, outer: a, sel: s, big: true}
+	case 3, 4:
+		s := pickSel(g.rnd.IntN(3) == 0)
+		o := g.overTime(g.pick(c27DiffFns), int64(2+g.rnd.IntN(5)), s, false)
+		return c27Case{kind: "def/big/overtime", node: o, sel: s, ot: o, big: true}
+	case 5:
+		s := pickSel(false)
+		o := g.overTime(g.pick(c27DiffFns), int64(2+g.rnd.IntN(5)), g.wrap(s), true)
+		return c27Case{kind: "def/big/overtime-subquery", node: o, sel: s, ot: o, big: true}
+	case 6:
+		s := pickSel(false)
+		a := g.agg(g.pick([]string{"sum", "min", "max", "avg"}), g.wrap(s))
+		o := g.overTime(g.pick(c27DiffFns), int64(2+g.rnd.IntN(4)), a, true)
+		return c27Case{kind: "def/big/overtime-of-aggregation", node: o, sel: s, ot: o, big: true}
+	default:
+		s := pickSel(false)
+		o := g.overTime(g.pick([]string{"stddev_over_time", "stdvar_over_time", "avg_over_time", "max_over_time"}), int64(2+g.rnd.IntN(4)), s, false)
+		a := g.agg(g.pick(c27DiffAggs), o)
+		return c27Case{kind: "def/big/agg-over-overtime", node: a, outer: a, sel: s, ot: o, big: true}
+	}
+}
+
 func (g *c27Gen) defCase() c27Case {
+	if g.rnd.IntN(12) == 0 {
+		return g.timeCase()
+	}
+	if g.big {
+		return g.bigCase()
+	}
 	op := g.pick(c27AllAggs)
 	switch g.rnd.IntN(9) {
 	case 0, 1:
